@@ -133,7 +133,7 @@ fn c05_victim_payload_after_dirty_clear() {
 // =================================================================================================
 // K1 — header names compare case-insensitively; repeated headers are joined in order
 // =================================================================================================
-// @verif prop=C02 tier=quick replay=none mem=16 bounds="`Host` in any of its 16 casings, value 2 symbolic bytes; typed getter and get() in another casing"
+// @verif prop=C02 tier=quick replay=none mem=10 bounds="`Host` in any of its 16 casings, value 2 symbolic bytes; typed getter and get() in another casing"
 #[kani::proof]
 #[kani::stub(core::str::from_utf8, stubs::from_utf8_model)]
 #[kani::unwind(12)]
@@ -172,7 +172,7 @@ fn c02_get_by_name_without_custom_headers() {
     std::mem::forget(req);
 }
 
-// @verif prop=C02 tier=quick replay=none kind=witness finding=c02-header-case mem=16 bounds="`Host` in any of its 16 casings"
+// @verif prop=C02 tier=quick replay=none kind=witness finding=c02-header-case mem=10 bounds="`Host` in any of its 16 casings"
 #[kani::proof]
 #[kani::stub(core::str::from_utf8, stubs::from_utf8_model)]
 #[kani::unwind(12)]
@@ -188,7 +188,7 @@ fn c02_kf_header_case() {
     std::mem::forget(req);
 }
 
-// @verif prop=C02 tier=quick replay=none mem=16 bounds="the same standard header twice (values 1 and 2 symbolic bytes) and a custom header"
+// @verif prop=C02 tier=quick replay=none mem=10 bounds="the same standard header twice (values 1 and 2 symbolic bytes) and a custom header"
 #[kani::proof]
 #[kani::stub(core::str::from_utf8, stubs::from_utf8_model)]
 #[kani::unwind(12)]
